@@ -56,12 +56,15 @@ Inductive upc :=
 | UDec                          (* at "sf_dec": drop the handle *)
 | UDone.
 
-Inductive thr :=
-| TC (m : cmode) (pc : cpc)
-| TR (k : rkind) (pc : rpc)
-| TU (cp : bool) (k : ukind) (pc : upc) (flag : bool) (seen : option outcome) (runs : nat).
+(* a user thread: copy-first flag, kind, pc, sync_awaiter flag, result picked up, how many times it picked one up *)
+Record uthr := mkU { ucp : bool; ukd : ukind; upcf : upc; uflag : bool; useen : option outcome; uruns : nat }.
 
+(* thread ids: 0 = creator, 1 = resolver, j + 2 = user j *)
 Record st := mkSt {
+  mode : cmode;            (* constant *)
+  rk : rkind;              (* constant *)
+  cpcf : cpc;
+  rpcf : rpc;
   slot : slotv;            (* future_common::_awaiter *)
   payload : outcome;       (* future::_state + union *)
   rc : nat;                (* shared_ptr use count *)
@@ -73,31 +76,35 @@ Record st := mkSt {
   pavail : bool;           (* promise available to the resolver *)
   walk : list node;        (* resolver-private: rest of the detached chain *)
   acc : list nat;          (* resolver-private: coroutines collected in the suspend point *)
-  thrs : list thr
+  users : list uthr
 }.
 
-Definition set_thrs (s : st) (l : list thr) : st :=
-  mkSt (slot s) (payload s) (rc s) (selfref s) (freed s) (pctor s) (pdtor s) (uaf s) (pavail s) (walk s) (acc s) l.
-Definition set_thr (s : st) (i : nat) (t : thr) : st := set_thrs s (set_nth (thrs s) i t).
+Definition set_cpc (s : st) (x : cpc) : st :=
+  mkSt (mode s) (rk s) x (rpcf s) (slot s) (payload s) (rc s) (selfref s) (freed s) (pctor s) (pdtor s) (uaf s) (pavail s) (walk s) (acc s) (users s).
+Definition set_rpc (s : st) (x : rpc) : st :=
+  mkSt (mode s) (rk s) (cpcf s) x (slot s) (payload s) (rc s) (selfref s) (freed s) (pctor s) (pdtor s) (uaf s) (pavail s) (walk s) (acc s) (users s).
+Definition set_users (s : st) (l : list uthr) : st :=
+  mkSt (mode s) (rk s) (cpcf s) (rpcf s) (slot s) (payload s) (rc s) (selfref s) (freed s) (pctor s) (pdtor s) (uaf s) (pavail s) (walk s) (acc s) l.
+Definition set_user (s : st) (j : nat) (u : uthr) : st := set_users s (set_nth (users s) j u).
 Definition set_slot (s : st) (x : slotv) : st :=
-  mkSt x (payload s) (rc s) (selfref s) (freed s) (pctor s) (pdtor s) (uaf s) (pavail s) (walk s) (acc s) (thrs s).
+  mkSt (mode s) (rk s) (cpcf s) (rpcf s) x (payload s) (rc s) (selfref s) (freed s) (pctor s) (pdtor s) (uaf s) (pavail s) (walk s) (acc s) (users s).
 Definition set_payload (s : st) (x : outcome) (c : nat) : st :=
-  mkSt (slot s) x (rc s) (selfref s) (freed s) c (pdtor s) (uaf s) (pavail s) (walk s) (acc s) (thrs s).
+  mkSt (mode s) (rk s) (cpcf s) (rpcf s) (slot s) x (rc s) (selfref s) (freed s) c (pdtor s) (uaf s) (pavail s) (walk s) (acc s) (users s).
 Definition set_rc (s : st) (x : nat) : st :=
-  mkSt (slot s) (payload s) x (selfref s) (freed s) (pctor s) (pdtor s) (uaf s) (pavail s) (walk s) (acc s) (thrs s).
+  mkSt (mode s) (rk s) (cpcf s) (rpcf s) (slot s) (payload s) x (selfref s) (freed s) (pctor s) (pdtor s) (uaf s) (pavail s) (walk s) (acc s) (users s).
 Definition set_selfref (s : st) (x : bool) : st :=
-  mkSt (slot s) (payload s) (rc s) x (freed s) (pctor s) (pdtor s) (uaf s) (pavail s) (walk s) (acc s) (thrs s).
+  mkSt (mode s) (rk s) (cpcf s) (rpcf s) (slot s) (payload s) (rc s) x (freed s) (pctor s) (pdtor s) (uaf s) (pavail s) (walk s) (acc s) (users s).
 Definition set_pavail (s : st) (x : bool) : st :=
-  mkSt (slot s) (payload s) (rc s) (selfref s) (freed s) (pctor s) (pdtor s) (uaf s) x (walk s) (acc s) (thrs s).
+  mkSt (mode s) (rk s) (cpcf s) (rpcf s) (slot s) (payload s) (rc s) (selfref s) (freed s) (pctor s) (pdtor s) (uaf s) x (walk s) (acc s) (users s).
 Definition set_walk (s : st) (x : list node) : st :=
-  mkSt (slot s) (payload s) (rc s) (selfref s) (freed s) (pctor s) (pdtor s) (uaf s) (pavail s) x (acc s) (thrs s).
+  mkSt (mode s) (rk s) (cpcf s) (rpcf s) (slot s) (payload s) (rc s) (selfref s) (freed s) (pctor s) (pdtor s) (uaf s) (pavail s) x (acc s) (users s).
 Definition set_acc (s : st) (x : list nat) : st :=
-  mkSt (slot s) (payload s) (rc s) (selfref s) (freed s) (pctor s) (pdtor s) (uaf s) (pavail s) (walk s) x (thrs s).
+  mkSt (mode s) (rk s) (cpcf s) (rpcf s) (slot s) (payload s) (rc s) (selfref s) (freed s) (pctor s) (pdtor s) (uaf s) (pavail s) (walk s) x (users s).
 Definition bump_uaf (s : st) : st :=
-  mkSt (slot s) (payload s) (rc s) (selfref s) (freed s) (pctor s) (pdtor s) (S (uaf s)) (pavail s) (walk s) (acc s) (thrs s).
+  mkSt (mode s) (rk s) (cpcf s) (rpcf s) (slot s) (payload s) (rc s) (selfref s) (freed s) (pctor s) (pdtor s) (S (uaf s)) (pavail s) (walk s) (acc s) (users s).
 (* the state's destructor: ~future_internal destroys the tracer and the payload (future.h:322-328) *)
 Definition free_state (s : st) : st :=
-  mkSt (slot s) (payload s) 0%nat (selfref s) (S (freed s)) (pctor s) (pdtor s + pctor s)%nat (uaf s) (pavail s) (walk s) (acc s) (thrs s).
+  mkSt (mode s) (rk s) (cpcf s) (rpcf s) (slot s) (payload s) 0%nat (selfref s) (S (freed s)) (pctor s) (pdtor s + pctor s)%nat (uaf s) (pavail s) (walk s) (acc s) (users s).
 
 (* any read or write of memory that belongs to the shared state (cell, payload, tracer, control block) *)
 Definition touch (s : st) : st := match freed s with O => s | _ => bump_uaf s end.
@@ -118,30 +125,29 @@ Definition node_eqb (a b : node) : bool :=
 Definition onode_eqb (a b : option node) : bool :=
   match a, b with None, None => true | Some x, Some y => node_eqb x y | _, _ => false end.
 
-Definition is_wait0 (t : thr) : bool := match t with TU _ _ UWait0 _ _ _ => true | _ => false end.
-Fixpoint find_wait0 (l : list thr) (n : nat) : option nat :=
+Definition set_upc (u : uthr) (pc : upc) : uthr := mkU (ucp u) (ukd u) pc (uflag u) (useen u) (uruns u).
+Definition is_wait0 (u : uthr) : bool := match upcf u with UWait0 => true | _ => false end.
+(* hand a handle to the first user that has none *)
+Fixpoint give (l : list uthr) : option (list uthr) :=
   match l with
   | [] => None
-  | t :: r => if is_wait0 t then Some n else find_wait0 r (S n)
+  | u :: r => if is_wait0 u then Some (set_upc u UWait1 :: r)
+              else match give r with Some r' => Some (u :: r') | None => None end
   end.
 Definition own_handles (m : cmode) : nat := match m with MLate2 => 2%nat | _ => 1%nat end.
 Definition is_late (m : cmode) : bool := match m with MLate | MLate2 => true | _ => false end.
-Definition next_give (l : list thr) (m : cmode) : cpc :=
-  match find_wait0 l 0 with Some _ => CGive | None => CDrop (own_handles m) end.
+Definition next_give (l : list uthr) (m : cmode) : cpc :=
+  if existsb is_wait0 l then CGive else CDrop (own_handles m).
 
 Definition enabled (s : st) (i : nat) : bool :=
-  match nth_error (thrs s) i with
-  | Some (TC _ CDone) => false
-  | Some (TC _ _) => true
-  | Some (TR _ (RDone _)) => false
-  | Some (TR _ RXWait) => pavail s
-  | Some (TR _ _) => true
-  | Some (TU _ _ UWait0 _ _ _) => false
-  | Some (TU _ _ UParked _ _ _) => false
-  | Some (TU _ _ UDone _ _ _) => false
-  | Some (TU _ _ UFlag f _ _) => f
-  | Some (TU _ _ _ _ _ _) => true
-  | None => false
+  match i with
+  | O => match cpcf s with CDone => false | _ => true end
+  | S O => match rpcf s with RDone _ => false | RXWait => pavail s | _ => true end
+  | S (S j) =>
+      match nth_error (users s) j with
+      | Some u => match upcf u with UWait0 | UParked | UDone => false | UFlag => uflag u | _ => true end
+      | None => false
+      end
   end.
 
 Definition payload_of (k : rkind) : outcome :=
@@ -151,20 +157,23 @@ Definition has_payload (k : rkind) : nat := match k with KDrop => 0%nat | _ => 1
 (* an awaiting user w picks up the result through its handle and lets the handle go (coroutine frame /
    callback context / blocking caller): value read, then shared_ptr release *)
 Definition finish_user (s : st) (w : nat) : st :=
-  match nth_error (thrs s) w with
-  | Some (TU cp k pc f seen runs) =>
+  match nth_error (users s) w with
+  | Some u =>
       let s1 := touch s in
-      drop_ref (set_thr s1 w (TU cp k UDone f (Some (payload s1)) (S runs)))
-  | _ => s
+      drop_ref (set_user s1 w (mkU (ucp u) (ukd u) UDone (uflag u) (Some (payload s1)) (S (uruns u))))
+  | None => s
   end.
 
-(* awaiter.h:109 `ret << y->resume()` for a user node *)
+(* awaiter.h:109 `ret << y->resume()` for a user node: dispatch on the awaiter's resume function *)
 Definition release_node (s : st) (w : nat) : st :=
-  match nth_error (thrs s) w with
-  | Some (TU cp (UKAwait WCoro) pc f seen runs) => set_acc s (acc s ++ [w])
-  | Some (TU cp (UKAwait WCallback) pc f seen runs) => finish_user s w
-  | Some (TU cp k pc f seen runs) => set_thr s w (TU cp k pc true seen runs)   (* sync_awaiter: set the flag *)
-  | _ => s
+  match nth_error (users s) w with
+  | Some u =>
+      match ukd u with
+      | UKAwait WCoro => set_acc s (acc s ++ [w])
+      | UKAwait WCallback => finish_user s w
+      | _ => set_user s w (mkU (ucp u) (ukd u) (upcf u) true (useen u) (uruns u))   (* sync_awaiter: set the flag *)
+      end
+  | None => s
   end.
 
 (* the suspend point returned by resolve() is discarded: collected coroutines run now, in order *)
@@ -174,118 +183,118 @@ Fixpoint resume_all (s : st) (l : list nat) : st :=
   | c :: t => resume_all (finish_user s c) t
   end.
 
-Definition finish (s : st) (i : nat) (k : rkind) : st :=
-  set_thr (set_acc (resume_all s (acc s)) []) i (TR k (RDone true)).
+Definition finish (s : st) : st := set_rpc (set_acc (resume_all s (acc s)) []) (RDone true).
 
 Definition first_action (k : ukind) : upc := match k with UKDrop => UDec | _ => UReady end.
 
 (* the creator leaves charge(): late modes now return the promise; then handles are given out *)
-Definition after_charge (s : st) (i : nat) (m : cmode) : st :=
-  set_thr (set_pavail s (pavail s || is_late m)) i (TC m (next_give (thrs s) m)).
+Definition after_charge (s : st) : st :=
+  set_cpc (set_pavail s (pavail s || is_late (mode s))) (next_give (users s) (mode s)).
 
-(* one step of thread i; returns the new state and the code of the point the thread was pending at *)
-Definition tstep (s : st) (i : nat) : st * Z :=
-  match nth_error (thrs s) i with
-  (* ---- creator ---- *)
-  | Some (TC m CClaim) => (set_thr (set_pavail s true) i (TC m CDtor), 1)
-  | Some (TC m CDtor) =>
-      (match m with
+(* creator step; returns the new state and the code of the point the thread was pending at *)
+Definition cstep (s : st) : st * Z :=
+  match cpcf s with
+  | CClaim => (set_cpc (set_pavail s true) CDtor, 1)
+  | CDtor =>
+      (match mode s with
        | MFut => let s1 := touch s in    (* shared_future.h:109 `if (_ptr->pending())` *)
                  match slot s1 with
-                 | SReady => set_thr s1 i (TC m (next_give (thrs s1) m))
-                 | _ => set_thr s1 i (TC m CSet)
+                 | SReady => set_cpc s1 (next_give (users s1) (mode s1))
+                 | _ => set_cpc s1 CSet
                  end
-       | _ => set_thr s i (TC m CSet)
+       | _ => set_cpc s CSet
        end, 2)
-  | Some (TC m CSet) =>
-      (set_thr (set_selfref (add_ref s) true) i (TC m (CSub false None)), 52)
-  | Some (TC m (CSub r e)) =>
+  | CSet => (set_cpc (set_selfref (add_ref s) true) (CSub false None), 52)
+  | CSub r e =>
       (let s1 := touch s in
        match slot s1 with
-       | SReady => set_thr s1 i (TC m CClr)
+       | SReady => set_cpc s1 CClr
        | SChain l =>
-           if onode_eqb (head l) e then after_charge (set_slot s1 (SChain (NT :: l))) i m
-           else set_thr s1 i (TC m (CSub true (head l)))
+           if onode_eqb (head l) e then after_charge (set_slot s1 (SChain (NT :: l)))
+           else set_cpc s1 (CSub true (head l))
        end, if r then 7 else 6)
-  | Some (TC m CClr) =>
-      (after_charge (drop_ref (set_selfref (touch s) false)) i m, 50)
-  | Some (TC m CGive) =>
-      (match find_wait0 (thrs s) 0 with
-       | Some j =>
-           match nth_error (thrs s) j with
-           | Some (TU cp k _ f seen runs) =>
-               let s1 := set_thr (add_ref s) j (TU cp k UWait1 f seen runs) in
-               set_thr s1 i (TC m (next_give (thrs s1) m))
-           | _ => s
-           end
-       | None => set_thr s i (TC m (CDrop (own_handles m)))
+  | CClr => (after_charge (drop_ref (set_selfref (touch s) false)), 50)
+  | CGive =>
+      (match give (users s) with
+       | Some us => set_cpc (set_users (add_ref s) us) (next_give us (mode s))
+       | None => set_cpc s (CDrop (own_handles (mode s)))
        end, 54)
-  | Some (TC m (CDrop k)) =>
-      (set_thr (drop_ref s) i (TC m (match k with S (S n) => CDrop (S n) | _ => CDone end)), 50)
-  | Some (TC m CDone) => (s, 0)
-  (* ---- resolver ---- *)
-  | Some (TR k RXWait) => (set_thr s i (TR k RClaim), 9)
-  | Some (TR k RClaim) =>       (* claim(), then future::set constructs the payload in the state *)
-      (let s1 := touch s in set_thr (set_payload s1 (payload_of k) (has_payload k)) i (TR k RResolve), 1)
-  | Some (TR k RResolve) =>
+  | CDrop k => (set_cpc (drop_ref s) (match k with S (S n) => CDrop (S n) | _ => CDone end), 50)
+  | CDone => (s, 0)
+  end.
+
+(* the walk loop ends when the detached chain is exhausted (awaiter.h:104); the pc is RWalk on entry *)
+Definition maybe_finish (s : st) : st := match walk s with [] => finish s | _ => s end.
+
+Definition rstep (s : st) : st * Z :=
+  match rpcf s with
+  | RXWait => (set_rpc s RClaim, 9)
+  | RClaim =>       (* claim(), then future::set constructs the payload in the state *)
+      (let s1 := touch s in set_rpc (set_payload s1 (payload_of (rk s1)) (has_payload (rk s1))) RResolve, 1)
+  | RResolve =>
       (let s1 := touch s in
        let l := match slot s1 with SChain l => l | SReady => [] end in
-       let s2 := set_walk (set_slot s1 SReady) l in
-       match l with [] => finish s2 i k | _ => set_thr s2 i (TR k RWalk) end, 3)
-  | Some (TR k RWalk) =>
+       maybe_finish (set_rpc (set_walk (set_slot s1 SReady) l) RWalk), 3)
+  | RWalk =>
       (match walk s with
-       | [] => finish s i k
+       | [] => maybe_finish s
        | NT :: t =>              (* reads and clears tracer._next (memory of the state), calls the tracer callback *)
-           set_thr (set_walk (touch s) t) i (TR k RClr)
-       | NU w :: t =>
-           let s1 := release_node (set_walk s t) w in
-           match t with [] => finish s1 i k | _ => s1 end
+           set_rpc (set_walk (touch s) t) RClr
+       | NU w :: t => maybe_finish (release_node (set_walk s t) w)
        end, 4)
-  | Some (TR k RClr) =>
-      (let s1 := drop_ref (set_selfref (touch s) false) in
-       match walk s1 with [] => finish s1 i k | _ => set_thr s1 i (TR k RWalk) end, 53)
-  | Some (TR k (RDone _)) => (s, 0)
-  (* ---- users ---- *)
-  | Some (TU cp k UWait0 f seen runs) => (s, 0)
-  | Some (TU cp k UWait1 f seen runs) =>
-      (set_thr s i (TU cp k (if cp then UInc else first_action k) f seen runs), 9)
-  | Some (TU cp k UInc f seen runs) => (set_thr (add_ref s) i (TU cp k UDecO f seen runs), 54)
-  | Some (TU cp k UDecO f seen runs) => (set_thr (drop_ref s) i (TU cp k (first_action k) f seen runs), 50)
-  | Some (TU cp k UReady f seen runs) =>
-      (let s1 := touch s in
-       match k with
-       | UKAwait _ =>
-           match slot s1 with
-           | SReady => finish_user s1 i
-           | _ => set_thr s1 i (TU cp k (USub false None) f seen runs)
-           end
-       | UKPoll =>
-           set_thr s1 i (TU cp k UDec f (Some (match slot s1 with SReady => payload s1 | _ => ONotReady end)) (S runs))
-       | UKDrop => set_thr s1 i (TU cp k UDec f seen runs)
-       end, 5)
-  | Some (TU cp k (USub r e) f seen runs) =>
-      (let s1 := touch s in
-       match slot s1 with
-       | SReady => finish_user s1 i
-       | SChain l =>
-           if onode_eqb (head l) e then
-             set_thr (set_slot s1 (SChain (NU i :: l))) i
-                     (TU cp k (match k with UKAwait WBlock => UFlag | _ => UParked end) f seen runs)
-           else set_thr s1 i (TU cp k (USub true (head l)) f seen runs)
-       end, if r then 7 else 6)
-  | Some (TU cp k UFlag f seen runs) => (finish_user s i, 8)
-  | Some (TU cp k UDec f seen runs) => (set_thr (drop_ref s) i (TU cp k UDone f seen runs), 50)
-  | Some (TU cp k UParked f seen runs) => (s, 0)
-  | Some (TU cp k UDone f seen runs) => (s, 0)
-  | None => (s, 0)
+  | RClr => (maybe_finish (set_rpc (drop_ref (set_selfref (touch s) false)) RWalk), 53)
+  | RDone _ => (s, 0)
   end.
+
+Definition ustep (s : st) (j : nat) : st * Z :=
+  match nth_error (users s) j with
+  | None => (s, 0)
+  | Some u =>
+      match upcf u with
+      | UWait0 => (s, 0)
+      | UWait1 => (set_user s j (set_upc u (if ucp u then UInc else first_action (ukd u))), 9)
+      | UInc => (set_user (add_ref s) j (set_upc u UDecO), 54)
+      | UDecO => (set_user (drop_ref s) j (set_upc u (first_action (ukd u))), 50)
+      | UReady =>
+          (let s1 := touch s in
+           match ukd u with
+           | UKAwait _ =>
+               match slot s1 with
+               | SReady => finish_user s1 j
+               | _ => set_user s1 j (set_upc u (USub false None))
+               end
+           | UKPoll =>
+               set_user s1 j (mkU (ucp u) (ukd u) UDec (uflag u)
+                                  (Some (match slot s1 with SReady => payload s1 | _ => ONotReady end)) (S (uruns u)))
+           | UKDrop => set_user s1 j (set_upc u UDec)
+           end, 5)
+      | USub r e =>
+          (let s1 := touch s in
+           match slot s1 with
+           | SReady => finish_user s1 j
+           | SChain l =>
+               if onode_eqb (head l) e then
+                 set_user (set_slot s1 (SChain (NU j :: l))) j
+                          (set_upc u (match ukd u with UKAwait WBlock => UFlag | _ => UParked end))
+               else set_user s1 j (set_upc u (USub true (head l)))
+           end, if r then 7 else 6)
+      | UFlag => (finish_user s j, 8)
+      | UDec => (set_user (drop_ref s) j (set_upc u UDone), 50)
+      | UParked => (s, 0)
+      | UDone => (s, 0)
+      end
+  end.
+
+(* one step of thread i *)
+Definition tstep (s : st) (i : nat) : st * Z :=
+  match i with O => cstep s | S O => rstep s | S (S j) => ustep s j end.
 
 Fixpoint enabled_list (s : st) (n : nat) (from : nat) : list nat :=
   match n with
   | O => []
   | S m => (if enabled s from then [from] else []) ++ enabled_list s m (S from)
   end.
-Definition all_enabled (s : st) : list nat := enabled_list s (length (thrs s)) 0.
+Definition all_enabled (s : st) : list nat := enabled_list s (2 + length (users s)) 0.
 
 (* run a schedule: choice k picks the (k mod |enabled|)-th enabled thread; an exhausted schedule continues with 0 *)
 Fixpoint run_sched (fuel : nat) (s : st) (sched : list Z) (tr : list (nat * Z)) : st * list (nat * Z) :=
@@ -321,11 +330,11 @@ Definition decode_uk (k : Z) : option ukind :=
   | 0 => Some UKDrop | 1 => Some UKPoll | 2 => Some (UKAwait WCoro) | 3 => Some (UKAwait WBlock)
   | 4 => Some (UKAwait WCallback) | _ => None
   end.
-Definition decode_user (l : list Z) : list thr :=
+Definition decode_user (l : list Z) : list uthr :=
   match l with
   | [2; c; k] =>
       match decode_cp c, decode_uk k with
-      | Some cp, Some uk => [TU cp uk UWait0 false None 0]
+      | Some cp, Some uk => [mkU cp uk UWait0 false None 0]
       | _, _ => []
       end
   | _ => []
@@ -337,24 +346,22 @@ Definition mode_of (ops : list (list Z)) : cmode :=
 Definition res_of (ops : list (list Z)) : rkind :=
   match flat_map decode_res ops with k :: _ => k | [] => KVal 0 end.
 
-Definition init_cpc (m : cmode) (us : list thr) : cpc :=
+Definition init_cpc (m : cmode) (us : list uthr) : cpc :=
   match m with
   | MFn | MFut => CClaim
   | MLate | MLate2 => CSet
-  | MPre _ => next_give (TC m CDone :: TR KDrop (RDone false) :: us) m
+  | MPre _ => next_give us m
   end.
 
-(* state when the controlled phase begins: the creator stands at its first point.
-   fixed = false models init_if_needed as it was before commit a23ff80 (`if (_ptr)`): a default-constructed
-   handle stays null and get_promise() dereferences it — there is no state at all (see Regress_C17.v). *)
+(* state when the controlled phase begins: the creator stands at its first point *)
 Definition init (ops : list (list Z)) : st :=
   let m := mode_of ops in
   let us := flat_map decode_user ops in
-  let r := match m with MPre _ => TR (res_of ops) (RDone false) | _ => TR (res_of ops) RXWait end in
-  mkSt (match m with MPre _ => SReady | _ => SChain [] end)
+  mkSt m (res_of ops) (init_cpc m us)
+       (match m with MPre _ => RDone false | _ => RXWait end)
+       (match m with MPre _ => SReady | _ => SChain [] end)
        (match m with MPre v => OVal v | _ => ONone end)
-       (own_handles m) false 0 (match m with MPre _ => 1%nat | _ => 0%nat end) 0 0 false [] []
-       (TC m (init_cpc m us) :: r :: us).
+       (own_handles m) false 0 (match m with MPre _ => 1%nat | _ => 0%nat end) 0 0 false [] [] us.
 
 Definition okind (o : option outcome) : list Z :=
   match o with
@@ -362,29 +369,25 @@ Definition okind (o : option outcome) : list Z :=
   | Some ONone => [0; 0] | Some (OVal v) => [1; v] | Some (OExc e) => [2; e] | Some ONotReady => [7; 0]
   end.
 
-Definition thr_obs (i : nat) (t : thr) : list Z :=
-  match t with
-  | TC _ CDone => [Z.of_nat i; 3; 1]
-  | TC _ _ => [Z.of_nat i; 3; 0]
-  | TR _ (RDone r) => [Z.of_nat i; 1; b2z r]
-  | TR _ _ => [Z.of_nat i; 1; -1]
-  | TU _ _ UDone _ seen runs => Z.of_nat i :: 2 :: 1 :: okind seen ++ [Z.of_nat runs]
-  | TU _ _ _ _ seen runs => Z.of_nat i :: 2 :: 0 :: okind seen ++ [Z.of_nat runs]
-  end.
-Fixpoint thr_obs_all (l : list thr) (i : nat) : list (list Z) :=
-  match l with [] => [] | t :: r => thr_obs i t :: thr_obs_all r (S i) end.
+Definition user_obs (i : nat) (u : uthr) : list Z :=
+  Z.of_nat i :: 2 :: (match upcf u with UDone => 1 | _ => 0 end) :: okind (useen u) ++ [Z.of_nat (uruns u)].
+Fixpoint user_obs_all (l : list uthr) (i : nat) : list (list Z) :=
+  match l with [] => [] | u :: r => user_obs i u :: user_obs_all r (S i) end.
+Definition thr_obs_all (s : st) : list (list Z) :=
+  [0; 3; match cpcf s with CDone => 1 | _ => 0 end]
+  :: [1; 1; match rpcf s with RDone r => b2z r | _ => -1 end]
+  :: user_obs_all (users s) 2.
 
-Definition unfinished (t : thr) : bool :=
-  match t with
-  | TC _ CDone => false | TC _ _ => true
-  | TR _ (RDone _) => false | TR _ _ => true
-  | TU _ _ UDone _ _ _ => false | TU _ _ UParked _ _ _ => false | TU _ _ _ _ _ _ => true
-  end.
-Fixpoint stuck_list (l : list thr) (i : nat) : list Z :=
+Definition unfinished (u : uthr) : bool :=
+  match upcf u with UDone | UParked => false | _ => true end.
+Fixpoint stuck_users (l : list uthr) (i : nat) : list Z :=
   match l with
   | [] => []
-  | t :: r => (if unfinished t then [Z.of_nat i] else []) ++ stuck_list r (S i)
+  | u :: r => (if unfinished u then [Z.of_nat i] else []) ++ stuck_users r (S i)
   end.
+Definition stuck_list (s : st) : list Z :=
+  (match cpcf s with CDone => [] | _ => [0] end) ++ (match rpcf s with RDone _ => [] | _ => [1] end)
+  ++ stuck_users (users s) 2.
 
 (* [10; live payload objects; leaked states] *)
 Definition final_obs (s : st) : list Z :=
@@ -397,10 +400,11 @@ Definition final_state (ops : list (list Z)) : st * list (nat * Z) :=
 Definition sf_run (ops : list (list Z)) : list (list Z) :=
   let '(s, tr) := final_state ops in
   map (fun p => [Z.of_nat (fst p); snd p]) tr
-  ++ (match stuck_list (thrs s) 0 with [] => [] | l => [777 :: l] end)
-  ++ thr_obs_all (thrs s) 0 ++ [final_obs s].
+  ++ (match stuck_list s with [] => [] | l => [777 :: l] end)
+  ++ thr_obs_all s ++ [final_obs s].
 
-(* the old init_if_needed (`if (_ptr)`): late initialisation dereferences a null pointer before any point is reached *)
+(* the old init_if_needed (`if (_ptr)`, before commit a23ff80): a default-constructed handle stays null and
+   get_promise() dereferences it before any point is reached (see Regress_C17.v) *)
 Definition sf_run_old (ops : list (list Z)) : list (list Z) :=
   if is_late (mode_of ops) then [[-999]] else sf_run ops.
 
@@ -415,27 +419,28 @@ Definition expected (ops : list (list Z)) : list Z :=
   | _ => okind (Some (payload_of (res_of ops)))
   end.
 
-(* the result line of user thread number i (tid) must be: finished, resumed / read exactly once, same result *)
-Definition user_ok (exp : list Z) (t : thr) (l : list Z) : bool :=
-  match t, l with
-  | TU _ UKDrop _ _ _ _, [_; 2; 1; 9; 0; 0] => true
-  | TU _ UKPoll _ _ _ _, [_; 2; 1; k; d; 1] => list_eqb [k; d] exp || list_eqb [k; d] [7; 0]
-  | TU _ (UKAwait _) _ _ _ _, [_; 2; 1; k; d; 1] => list_eqb [k; d] exp
-  | TC _ _, [_; 3; 1] => true
-  | TR _ RXWait, [_; 1; 1] => true
-  | TR _ (RDone _), [_; 1; 0] => true
+(* the result line of a user thread must be: finished, resumed / read exactly once, same result *)
+Definition user_ok (exp : list Z) (u : uthr) (l : list Z) : bool :=
+  match ukd u, l with
+  | UKDrop, [_; 2; 1; 9; 0; 0] => true
+  | UKPoll, [_; 2; 1; k; d; 1] => list_eqb [k; d] exp || list_eqb [k; d] [7; 0]
+  | UKAwait _, [_; 2; 1; k; d; 1] => list_eqb [k; d] exp
   | _, _ => false
   end.
 
-Fixpoint lines_ok (exp : list Z) (decl : list thr) (i : nat) (res : list (list Z)) : bool :=
+Fixpoint lines_ok (exp : list Z) (decl : list uthr) (i : nat) (res : list (list Z)) : bool :=
   match decl, res with
   | [], [[10; 0; 0]] => true                    (* every payload object destroyed, nothing leaked *)
-  | t :: d, l :: r =>
-      (match l with x :: _ => Z.eqb x (Z.of_nat i) | [] => false end) && user_ok exp t l && lines_ok exp d (S i) r
+  | u :: d, l :: r =>
+      (match l with x :: _ => Z.eqb x (Z.of_nat i) | [] => false end) && user_ok exp u l && lines_ok exp d (S i) r
   | _, _ => false
   end.
 
 Definition sf_oracle (ops obs : list (list Z)) : bool :=
-  let decl := thrs (init ops) in
+  let s0 := init ops in
   let res := filter (fun l => negb (is_trace_line l)) obs in
-  lines_ok (expected ops) decl 0 res.
+  match res with
+  | [0; 3; 1] :: [1; 1; r] :: rest =>
+      Z.eqb r (match mode s0 with MPre _ => 0 | _ => 1 end) && lines_ok (expected ops) (users s0) 2 rest
+  | _ => false
+  end.
